@@ -33,11 +33,20 @@ LEVEL_TEXT = ("PARTIAL by DESIGN §8's definition: (1) the barrier clause is pro
               "iteration) and the oracle (raw handlers/indexers at the dequeue instant also in held-back iterations, timers on schedule "
               "during barrier sleeps, daemon spawned in the first iteration); in the model it is a structural fact (Lemmas: "
               "stages_before_barrier_independent), not counted; not_delayed_kopf adds that the sleep begins only after the low-level "
-              "stages and that a wake-up ends it at once. Unguarded theorems for ALL step lists of one object's stream (any versions, "
+              "stages and that a wake-up ends it at once; the tie compares when process_spawning_cause was really ENTERED in every iteration "
+              "(held back or not) and the oracle requires a daemon/timer behind a filter to be started in the low-level phase of the first "
+              "iteration that shows a matching view, before its barrier sleep. Unguarded theorems for ALL step lists of one object's stream (any versions, "
               "listed or streamed events, arrival times, pressure, wake-ups incl. the exiting watcher's, pending patches, handler "
               "durations, sleep lateness, idle retirements, background patches, any consistency_timeout): interrupted_never_achieved, "
               "released_after_deadline(+_run) (fix 5dff3c1: at or after the deadline, with no pending patch, the changing stage is entered "
               "whatever was accumulated; deadline_with_patch_regression_witness on the pre-fix verdict), "
+              "released_by_timeout (a timed-out sleep, not paused: the changing stage is entered when it ends); fix 3cc60e3: paused_holds(+_run) "
+              "(while a version is awaited and the operator is paused when the consistency block is left, the iteration is held back: at/after "
+              "the deadline, after a timed-out sleep, for a GONE cause, for consistency_time 0.0; low-level stages as always), "
+              "pause_ignored_when_nothing_expected, awaited_version_releases (the re-listed awaited version resets the worker, paused or not), "
+              "paused_timeout_regression_witness on the pre-fix verdict; held_for_good_witness: the RELEASE is not guaranteed (open finding "
+              "C07-F2 = C03-N6: awaited version lost + accumulated no-op patch before the deadline: no sleep, no event, nobody acts at the deadline), "
+              "replayed on the real code on every run (corpus/C07/F2.json with a pause, F2b.json with a cut stream); "
               "disabled (T=0), deadline_monotone, retire_after_deadline, never_arrives, noop_patch_does_not_arm, "
               "noop_cycle_leaves_consistent (fix 460c956) with noop_stall_regression_witness on the pre-fix feedback; "
               "listed_view_is_not_consistency_witness (a worker that trusts (re-)listed events breaks the barrier: seeded change C14c). "
@@ -47,7 +56,9 @@ LEVEL_TEXT = ("PARTIAL by DESIGN §8's definition: (1) the barrier clause is pro
 THEOREMS = [("Kopf.Props.C07", "Kopf.C07." + n) for n in [
     "barrier_partial", "barrier_background_witness", "barrier_every_patch_partial", "barrier_view_partial",
     "barrier_every_patch_view_partial", "not_delayed_kopf", "interrupted_never_achieved", "released_after_deadline", "released_after_deadline_run",
-    "deadline_with_patch_regression_witness", "disabled",
+    "deadline_with_patch_regression_witness", "released_by_timeout", "paused_holds", "paused_holds_run",
+    "pause_ignored_when_nothing_expected", "awaited_version_releases", "paused_timeout_regression_witness",
+    "held_for_good_witness", "disabled",
     "deadline_monotone", "retire_after_deadline", "never_arrives", "listed_view_is_not_consistency_witness",
     "noop_patch_does_not_arm", "noop_cycle_leaves_consistent", "noop_stall_regression_witness"]]
 RULE = ("seeded whole-operator scenarios: T in {0, 0.25, 1, 5} s; request latency 1-64 ticks, response latency 0-48 ticks; echo delay of "
@@ -56,7 +67,13 @@ RULE = ("seeded whole-operator scenarios: T in {0, 0.25, 1, 5} s; request latenc
         "update/delete handlers with temporary errors (several cycles), sleeping handlers; optional event handler (plain/slow/result-"
         "returning incl. idempotent results = no-op writes), index, daemon, timer (plain/result-returning = background patches); idle_timeout in {0.25, 1, 5}; optional deletion; in 30 % of the histories 1-3 breaks of the watch stream (410 with "
         "compaction -> re-listing, eof, connection reset; queued behind the pending deliveries or cutting the stream at once) timed inside a "
-        "sleeping change handler or between an own write and its echo. One case = one "
+        "sleeping change handler or between an own write and its echo; in 30 % of the histories with T > 0 one or two pause plans (a toggle in the "
+        "operator's own `operator_paused` set, as the peering does): paused right after the n-th own write / inside the n-th sleeping change handler "
+        "(with foreign edits queued behind it) / at the begin of, inside, one tick before, exactly at or after the deadline of the n-th barrier sleep; "
+        "un-paused before or after the deadline; 30 % of the plans pause again 1-40 ticks after the un-pausing (flapping); handler shapes: create/update/delete plus (20 % each) resume and field handlers; 12 % of the histories start from an object "
+        "already handled by a previous incarnation (last-handled annotation: RESUME causes, resuming handlers with retries); 30 %: a daemon or "
+        "timer behind a filter (spec.x == v, v mostly the value of a reactive foreign edit: spawned by a held-back iteration); deletions with "
+        "foreign edits of the terminating object around the framework's writes, and early deletions (inside the window of edits). One case = one "
         "worker iteration; distinct & non-trivial = distinct abstracted (deadline set?, reset by arrival?, slept/woken/timed-out, "
         "held/entered, pending patch, pressure, patched?) tuples where a deadline was set or a patch was made")
 TRUSTED = ["harness/sim (virtual-time loop, fake API server, scripted handlers) + harness/props/sim_c07.py (per-event echo delay, "
@@ -67,14 +84,26 @@ ASSUMPTIONS = ["the barrier theorems are about PATCHes issued by the object's wo
                "daemons/timers not being delayed by the barrier is checked by the oracle on the simulations, not proved (they are separate tasks outside the model)",
                "fault sequences are outside C07's quantifier: a PATCH whose response is lost (exception out of patch_obj, swallowed by the "
                "throttler) returns None to the worker, nothing is armed and the next (older) view is handled at once",
+               "pausing is a toggle of the harness in the operator's own ToggleSet (standalone operator): the peering's own decisions are C13's subject; "
+               "`operator_paused.is_on()` is sampled where the code reads it (at the finalizer decision: no suspension point from there to the read when "
+               "no sleep is taken; and when the barrier sleep returns)",
+               "a paused operator stops its daemons and timers: their schedule from the first pause on is not checked here (C09)",
+               "the release of the barrier ('until … the timeout has elapsed') is checked by the oracle at the end of every history (the last iteration "
+               "of a living object is not held back for good); it is false in one shape: open finding C07-F2 (= C03-N6), held_for_good_witness",
                "watch-stream breaks, reconnects and re-listings (410) are generated; operator restarts are not (a fresh operator re-lists the current state; C14/C19's subject)",
                "times are multiples of 1/64 s; a timed-out sleep ends exactly at its deadline under virtual time (the theorems allow any lateness)",
-               "GONE causes have no handlers (C05); `handlers` in the model excludes them"]
+               "GONE causes have no handlers (C05); `handlers` in the model excludes them",
+               "the model's inputs of one iteration (patch emptiness, pressure, pause) are sampled when the last low-level stage "
+               "(process_watching_cause / process_spawning_cause) returns, else at the finalizer decision; code that no longer passes through "
+               "processing.process_resource_causes is reported as a broken tie (nothing compared), not as a pass"]
 
-CHANGE_KINDS = ("create", "update", "delete", "resume")
+CHANGE_KINDS = ("create", "update", "delete", "resume", "field")
 F1_SIG = {"site": "daemons._runner/application.apply vs queueing.worker",
           "shape": "change handler on a view older than a daemon/timer PATCH of the same object before the timeout: "
                    "background patches are not reported to the worker"}
+F2_SIG = {"site": "process_resource_causes/application.apply vs queueing.worker",
+          "shape": "held back for good: the awaited version is lost, the held iteration's accumulated patch is a server-side no-op, "
+                   "no event follows and nobody acts when the deadline passes"}
 VER_RE = re.compile(r"(\d+)(~which~never~arrives)?")
 
 
@@ -150,6 +179,11 @@ def gen_scenario(rng: Any, i: int) -> dict:
         handlers.append({"kind": "event", "id": "e0", "script": [], "default": ["ok", {"state": "seen"}]})
     elif ev == "result":
         handlers.append({"kind": "event", "id": "e0", "script": [["ok", {"seen": k // rng.choice([1, 2, 50])}] for k in range(rng.choice([2, 6, 40]))]})
+    # the other change-detecting shapes: they are held back / let through together with the rest
+    if rng.random() < 0.2:
+        handlers.append({"kind": "resume", "id": "r0", "script": script(1), "default": "ok"})
+    if rng.random() < 0.2:
+        handlers.append({"kind": "field", "id": "f0", "script": script(1), "default": "ok", "opts": {"field": "spec.x"}})
     if rng.random() < 0.6:
         handlers.append({"kind": "index", "id": "i0"})
     if rng.random() < 0.4:
@@ -161,12 +195,28 @@ def gen_scenario(rng: Any, i: int) -> dict:
         handlers.append({"kind": "timer", "id": "t0", "opts": {"interval": rng.choice([0.75, 1.0])},
                          "script": [["ok", {"tick": k}] for k in range(rng.choice([3, 8]))]})
 
+    # daemons/timers behind a filter: they are spawned by the first event that shows a matching view — often a foreign
+    # edit made right after an own write (x = 1001, 1002, …: the reactive edits below), i.e. in a held-back iteration
+    if rng.random() < 0.3:
+        v = rng.choice([1001, 1001, 1002, 1003, 1, 2])
+        if rng.random() < 0.5:
+            handlers.append({"kind": "daemon", "id": "d1", "opts": {"field": "spec.x", "value": v}, "daemon": {"mode": "obey", "poll": 0.5}})
+        else:
+            handlers.append({"kind": "timer", "id": "t1", "opts": {"interval": 1.0, "field": "spec.x", "value": v}})
     preexisting = rng.random() < 0.2
     t_create = 1.0
     timeline: list[list] = []
     objects = []
     if preexisting:
-        objects.append({"name": "a", "body": {"spec": {"x": 0}}})
+        body: dict = {"spec": {"x": 0}}
+        if rng.random() < 0.6:
+            # handled by a previous incarnation of the operator: the first (listed) view and every later view without an
+            # essential change is a RESUME cause, for the resuming handlers (with retries: several own writes in a row)
+            body["metadata"] = {"annotations": {"kopf.zalando.org/last-handled-configuration": '{"spec":{"x":0}}\n'}}
+            if not any(h["kind"] == "resume" for h in handlers):
+                handlers.append({"kind": "resume", "id": "r0", "script": [["temp", rng.choice([0.25, 0.5, 1.0])] for _ in range(rng.choice([1, 2, 3]))],
+                                 "default": "ok", "opts": {"backoff": rng.choice([0.25, 1.0])}})
+        objects.append({"name": "a", "body": body})
     else:
         timeline.append([t_create, "create", "a", {"spec": {"x": 0}}])
     n_before = rng.choice([0, 1, 2, 3, 4, 5])
@@ -195,12 +245,23 @@ def gen_scenario(rng: Any, i: int) -> dict:
         h["script"] = [["fn", f"L{k}", sc_old[k] if k < len(sc_old) else h.get("default", "ok")] for k in range(max(len(sc_old), rng.choice([1, 2, 4])))]
         for _ in range(rng.choice([1, 1, 2])):
             slips.append({"nth": rng.choice([1, 2, 2, 3, 4]), "ctype": "json-patch", "op": ["edit", "a", {"spec": {"x": 600 + i % 5}}]})
+    if with_delete and rng.random() < 0.5:
+        # the deletion is not left in peace: foreign edits of the terminating object around the framework's writes
+        # (their stale views reach the worker while it awaits its own patch), and/or the deletion comes early
+        for _ in range(rng.choice([1, 1, 2])):
+            reactive.append({"on": "marked", "nth": rng.choice([1, 1, 2, 2, 3]),
+                             "offsets": sorted(rng.choice([0, 0, 1, rng.randrange(0, own + R + 33)]) for _ in range(rng.choice([1, 2, 3])))})
+        if rng.random() < 0.5:
+            # (not before the operator has got through its start-up requests and seen the object once)
+            t = t_create + (8 * L + rng.randrange(0, window)) / 64.0
+            t_last = max(t_last, t)
+            timeline.append([t, "delete", "a"])
     horizon = max(T, own / 64.0, 1.0)
     t_quiet = t_last + 10 * horizon + 6
     if rng.random() < 0.35:
         timeline.append([t_quiet, "edit", "a", {"spec": {"x": 900}}])
         t_quiet += 4 * horizon + 4
-    if rng.random() < 0.35:
+    if rng.random() < (0.8 if any(r.get("on") == "marked" for r in reactive) else 0.35):
         timeline.append([t_quiet, "delete", "a"])
         t_quiet += 4 * horizon + 4
     # re-listings and reconnects of the watch stream: inside a running (sleeping) change handler — the listed object is
@@ -221,11 +282,46 @@ def gen_scenario(rng: Any, i: int) -> dict:
                 breaks.append({"on": "sleep", "nth": rng.choice([1, 1, 2, 3]), "offset": rng.randrange(0, int(d * 64)), "how": rng.choice(hows)})
             else:
                 breaks.append({"on": "write", "nth": rng.choice([1, 2, 2, 3, 4, 5]), "offset": rng.randrange(0, own + R + 9), "how": rng.choice(hows)})
+    # pausing (what the peering does to an operator of a lower priority): the watch streams are closed, what is queued is
+    # still processed. Toggled around the barrier: before the sleep (after an own write / inside a running handler, with
+    # foreign events queued behind it), during the sleep, exactly at / right after its deadline; un-paused before or after
+    # the deadline; sometimes paused again soon after (flapping). Every plan ends un-paused.
+    pauses: list[dict] = []
+    if Tt and rng.random() < 0.3:
+        for _ in range(rng.choice([1, 1, 2])):
+            kind = rng.choice(["barrier", "barrier", "barrier", "write", "write", "sleep"])
+            anchor = "start"
+            if kind == "barrier":
+                anchor = rng.choice(["start", "start", "deadline"])
+                on = rng.choice([0, 0, 1, rng.randrange(0, Tt + 1)]) if anchor == "start" else rng.choice([-1, 0, 0, 1, 5])
+            elif kind == "write":
+                on = rng.choice([0, 1, rng.randrange(0, own + R + 9)])
+            else:
+                tgt = rng.choice([h for h in handlers if h["kind"] in ("create", "update")])
+                d = rng.choice([0.5, 1.5])
+                scr = list(tgt.get("script", []))
+                if not any(isinstance(a, list) and a and a[0] == "sleep" for a in scr):
+                    scr.insert(0, ["sleep", d, "ok"])
+                    tgt["script"] = scr
+                on = rng.randrange(0, 32)
+            nth = rng.choice([1, 1, 2, 3])
+            if kind in ("write", "sleep"):
+                # foreign edits while the handler runs / right around the own write: their events are queued before the pause
+                reactive.append({"on": kind, "nth": nth, "offsets": sorted(rng.randrange(0, 24) for _ in range(rng.choice([1, 2, 3])))})
+            long = Tt + R + rng.choice([8, 64, 200])
+            short = rng.randrange(1, max(2, Tt))
+            dur = rng.choice([short, long, long])
+            plan = [[on, True], [on + dur, False]]
+            if rng.random() < 0.3:
+                gap = rng.choice([1, 8, 40])
+                dur2 = rng.choice([short, long])
+                plan += [[on + dur + gap, True], [on + dur + gap + dur2, False]]
+            pauses.append({"on": kind, "nth": nth, "anchor": anchor, "plan": plan})
     sc = {"seed": i, "handlers": handlers, "timeline": timeline, "objects": objects, "slips": slips,
           "settings": {"persistence.consistency_timeout": T, "queueing.idle_timeout": rng.choice([0.25, 1.0, 5.0, 5.0]),
                        "execution.default_backoff": 1.0, "watching.reconnect_backoff": 0.125},
           "c07": {"latency": L, "resp_latency": R, "own_delay": own, "foreign_delay": foreign, "jitter": jitter, "reactive": reactive,
-                  "breaks": breaks, "echo_class": cls, "foreign_class": fcls},
+                  "breaks": breaks, "pauses": pauses, "echo_class": cls, "foreign_class": fcls},
           "end": t_quiet + 2.0}
     if rng.random() < 0.2:
         sc["status_subresource"] = True
@@ -251,8 +347,29 @@ def _split(tr: dict) -> dict[str, dict]:
     return out
 
 
+def _paused_at_exit(c7: dict) -> bool:
+    """`operator_paused.is_on()` at the instant the processor leaves its consistency block (sampled by sim_c07)."""
+    s = c7.get("sleep")
+    pz = s.get("paused_end") if s is not None and "t1" in s else c7.get("paused_mid")
+    return bool(pz)
+
+
+def _held_back(cyc: dict) -> bool:
+    """A changing cause was there for the handlers (not a cycle dedicated to the finalizer, not filtered out) and the
+    processor returned early."""
+    c7 = cyc["c07"]
+    must_block = any(c7["reqfin"])
+    fin_turn = (must_block and not c7["blocked"] and not c7["ongoing"]) or ((not must_block) and c7["blocked"])
+    required = bool(cyc["has_cause"] and c7["prematch"] and not fin_turn)
+    return required and not c7["matched"]
+
+
 def oracle(ctx: Ctx, sc: dict, tr: dict) -> None:
     T = float(sc["settings"]["persistence.consistency_timeout"])
+    plog = [p for p in tr.get("pause_log", []) if not p.get("noop")]
+    t_first_pause = min([p["wall"] for p in plog if p["on"]] or [float("inf")])
+    paused_at_end = bool(plog and plog[-1]["on"])
+    t_last_resume = max([p["wall"] for p in plog if not p["on"]] or [float("-inf")])
     ev_ids = [h["id"] for h in sc["handlers"] if h["kind"] == "event"]
     ix_ids = [h["id"] for h in sc["handlers"] if h["kind"] == "index"]
     t_end = min([m["t"] for m in tr["marks"] if m.get("what") == "end"] or [float("inf")])
@@ -323,11 +440,19 @@ def oracle(ctx: Ctx, sc: dict, tr: dict) -> None:
             c7 = cyc.get("c07")
             if c7 is None or cyc.get("error") or cyc["t0"] >= t_end or c7.get("matched") is None or T == 0:
                 continue
-            must_block = any(c7["reqfin"])
-            fin_turn = (must_block and not c7["blocked"] and not c7["ongoing"]) or ((not must_block) and c7["blocked"])
-            required = bool(cyc["has_cause"] and c7["prematch"] and not fin_turn)
-            held = required and not c7["matched"]
-            if not held:
+            if not _held_back(cyc):
+                continue
+            if c7["consistency_time"] is not None and _paused_at_exit(c7):
+                # A paused operator's watch streams are closed: the patched version CANNOT come back, and the timeout
+                # proves nothing (fix 3cc60e3): nothing releases the handlers while paused. What the property's safety
+                # clause needs is only that they do not run — checked above, pause or no pause. That the dropped event's
+                # change is handled after the un-pausing is the "held back for good" clause further down.
+                s7 = c7.get("sleep")
+                ctx.count("paused", "held while paused: " + (
+                    "the barrier sleep timed out" if s7 and s7.get("timed_out") else
+                    "the barrier sleep was interrupted (held anyway)" if s7 else
+                    "the deadline had passed already" if c7["consistency_time"] <= c7["t_mid"] else
+                    "a patch was pending (held anyway)"))
                 continue
             earlier = [p for p in o["own"] if float(p["t_applied"]) <= cyc["t0"] and p["cycle"] < cyc["i"]]
             if not earlier or not c7["patch_init_empty"] or cyc["reason"] == "gone":
@@ -364,6 +489,41 @@ def oracle(ctx: Ctx, sc: dict, tr: dict) -> None:
                 ctx.count("held_iteration", "newer view, the patched version itself was lost with a broken stream (held until the timeout)")
             else:
                 ctx.count("held_iteration", "view older than the own last patch (rightly held)")
+        # "… UNTIL the patched version has come back, or the consistency timeout has elapsed": the barrier delays the change
+        # handlers, it does not cancel them. If the LAST iteration of an object that still exists was held back, and the
+        # history goes on quietly (operator running, not paused) for longer than the timeout after it, after the worker's
+        # deadline and after the last un-pausing, then the change at hand is never handled: nothing else will bring it up.
+        done = [c for c in cycles if c.get("c07") is not None and not c.get("error") and c["c07"].get("matched") is not None]
+        # (the object may be gone without the operator having seen it go: released while paused, the stream closed)
+        gone = any(v.get("uid") == uid and v.get("event") == "DELETED" for vs in (tr.get("history") or {}).values() for v in vs)
+        if done and T > 0 and done[-1] is cycles[-1] and done[-1]["event_type"] != "DELETED" and not gone and _held_back(done[-1]):
+            last_c = done[-1]
+            c7 = last_c["c07"]
+            wall_off = last_c["t0"] - last_c["loop_t0"]
+            due = max(last_c["t1"], (c7["consistency_time"] or 0.0) + wall_off, t_last_resume) + T + 2.0
+            was_paused = c7["consistency_time"] is not None and _paused_at_exit(c7)
+            if paused_at_end or t_end < due:
+                ctx.count("held_for_good", "the history ends held back, but paused / too early to tell")
+            else:
+                # (a PATCH was sent by that iteration — so a patch had been accumulated — and it was answered with the version
+                # just processed; the iteration took no barrier sleep and began before the worker's deadline)
+                noop = (last_c.get("result_rv") is not None and str(last_c["result_rv"]) == str(last_c["rv"]) and c7.get("sleep") is None
+                        and c7["consistency_time"] is not None and last_c["loop_t0"] < c7["consistency_time"] and not was_paused)
+                ctx.count("held_for_good", "held back for good" + (": a patch accumulated by the low-level handlers, a no-op on the server (F2)" if noop else ""))
+                ctx.oracle_fail(
+                    f"the last event {last_c['rv']} of the object was held back at t={last_c['t0']} (consistency_time "
+                    f"{c7['consistency_time']}, operator {'paused' if was_paused else 'not paused'}) and nothing let its change through to the "
+                    f"change handlers in the {t_end - last_c['t1']} s that followed (consistency_timeout={T}"
+                    + (f", last un-pausing at t={t_last_resume}" if plog else "") + ")"
+                    + ("; the iteration had a patch accumulated by its low-level handlers (so it did not sleep), the PATCH changed nothing "
+                       "on the server (answered with the version just processed), so no event followed and the deadline passed unnoticed" if noop else ""),
+                    {"scenario": sc, "cycle": last_c["i"]},
+                    F2_SIG if noop else {"site": "process_resource_causes/queueing.worker", "shape": "change handlers held back for good"})
+        elif done and T > 0:
+            ctx.count("held_for_good", "the last iteration is not held back")
+            for cyc in done:
+                if cyc["c07"]["consistency_time"] is not None and _paused_at_exit(cyc["c07"]) and _held_back(cyc):
+                    ctx.count("paused", "… and a later iteration of the object is not held back")
         # a new arrival ends the barrier sleep at once: its own low-level processing is not held up
         pos = 0
         for life in o["lives"]:
@@ -393,8 +553,9 @@ def oracle(ctx: Ctx, sc: dict, tr: dict) -> None:
                   if (c.get("c07") or {}).get("sleep") and c["c07"]["sleep"].get("t1") is not None]
         marked_at = min([c["t0"] for c in cycles if (c.get("c07") or {}).get("ongoing")] or [float("inf")])
         for h in sc["handlers"]:
-            if h["kind"] == "timer" and not h.get("script"):
-                tc = [c["t"] for c in o["calls"] if c["id"] == h["id"] and c["t"] < min(marked_at, t_end)]
+            if h["kind"] == "timer" and not h.get("script") and "field" not in (h.get("opts") or {}):
+                # (a paused operator stops its timers and daemons: their schedule from the first pause on is not this barrier's)
+                tc = [c["t"] for c in o["calls"] if c["id"] == h["id"] and c["t"] < min(marked_at, t_end, t_first_pause)]
                 iv = float(h["opts"]["interval"])
                 for a, b in zip(tc, tc[1:]):
                     inside = any(s0 < b < s1 for s0, s1 in sleeps)
@@ -403,7 +564,38 @@ def oracle(ctx: Ctx, sc: dict, tr: dict) -> None:
                         ctx.oracle_fail(f"timer {h['id']} ticked at {a} and then at {b}: not its interval {iv}",
                                         {"scenario": sc, "uid": uid},
                                         {"site": "daemons._timer", "shape": "timer delayed"})
-            if h["kind"] == "daemon" and cycles:
+            if h["kind"] in ("daemon", "timer") and (h.get("opts") or {}).get("field") == "spec.x" and "value" in h["opts"]:
+                # behind a filter: spawned by the first iteration that shows a matching view — in its low-level phase,
+                # i.e. before its barrier sleep if it takes one, and also when its change handlers are held back
+                v = h["opts"]["value"]
+                fm = next((c for c in cycles if c.get("c07") is not None and not c.get("error") and c["c07"].get("t_out") is not None
+                           and c.get("x") == v and not c.get("marked") and c["event_type"] != "DELETED"), None)
+                # (a view that stops matching within the same instant — the next iteration begins at once and shows another
+                # value — stops the task before it gets to its function: nothing to observe)
+                nm = next((c for c in cycles if fm is not None and c["i"] > fm["i"]
+                           and (c.get("x") != v or c.get("marked") or c["event_type"] == "DELETED")), None)
+                limit = None
+                if fm is not None:
+                    s7 = fm["c07"].get("sleep")
+                    wall_off = fm["t0"] - fm["loop_t0"]
+                    limit = (s7["t0"] + wall_off) if s7 else fm["t1"]      # the end of its low-level phase
+                if fm is None or fm["t0"] >= min(t_end, t_first_pause):
+                    ctx.count("filtered_spawn", "no matching view (or only while paused / at the end)")
+                elif nm is not None and nm["t0"] <= limit:
+                    ctx.count("filtered_spawn", "matched for an instant only")
+                else:
+                    hc = [c["t"] for c in o["calls"] if c["id"] == h["id"]]
+                    ok = any(fm["t0"] <= t <= limit for t in hc)
+                    ctx.count("filtered_spawn", ("started by the first matching view" if ok else "NOT started by the first matching view")
+                              + (" (iteration held back)" if _held_back(fm) else ""))
+                    if not ok:
+                        ctx.oracle_fail(
+                            f"{h['kind']} {h['id']} (spec.x == {v}) was not started in the low-level phase of the first iteration that "
+                            f"shows a matching view (event {fm['rv']} dequeued at t={fm['t0']}, "
+                            + (f"barrier sleep from {limit}" if s7 else f"ended at {limit}") + f"): its calls are at {hc[:5]}",
+                            {"scenario": sc, "cycle": fm["i"]},
+                            {"site": "process_resource_causes/process_spawning_cause", "shape": "daemon/timer delayed by the barrier"})
+            elif h["kind"] == "daemon" and cycles:
                 first = cycles[0]
                 if not (first.get("c07") or {}).get("ongoing") and first["event_type"] != "DELETED" and not first.get("error"):
                     dc = [c["t"] for c in o["calls"] if c["id"] == h["id"]]
@@ -417,6 +609,10 @@ def oracle(ctx: Ctx, sc: dict, tr: dict) -> None:
 # abstraction: real iterations -> model steps
 class TraceShape(Exception):
     pass
+
+
+class Bypassed(Exception):
+    """The instrumentation points were not passed through: a tie failure (nothing could be compared), not a harness error."""
 
 
 def abstract(sc: dict, tr: dict) -> list[dict]:
@@ -465,8 +661,12 @@ def abstract(sc: dict, tr: dict) -> list[dict]:
                 n_inv = len(c["invoked"])
                 mine = ch_calls[cptr:cptr + n_inv]
                 cptr += n_inv
+                if c7 is None and not c.get("error") and c.get("has_cause"):
+                    # causes were detected, but not inside an observed `process_resource_causes`: the code no longer goes
+                    # through the attributes this harness watches. Nothing of this run can be compared: say so, loudly.
+                    raise Bypassed(f"cycle {c['i']}: causes detected outside an observed processing.process_resource_causes")
                 if c.get("error") or c7 is None or c7.get("t_out") is None:
-                    truncated = True      # cancelled at the operator's stop: the iteration never completed
+                    truncated = True      # cancelled at the operator's stop / throttled: the iteration never completed
                     break
                 if c7["t_mid"] is None:
                     raise TraceShape("the finalizer decision point was not observed")
@@ -497,13 +697,19 @@ def abstract(sc: dict, tr: dict) -> list[dict]:
                       "patchMid": bool(c7["patch_mid_empty"]), "patched": patched, "tp": tp, "tret": tret,
                       "listed": c["event_type"] is None}
                 s = c7["sleep"]
+                # `operator_paused.is_on()` as the code reads it when it leaves the consistency block: sampled when the
+                # barrier sleep returned, else when the finalizer decision was taken (no suspension point in between)
+                pz = s.get("paused_end") if s is not None and "t1" in s else c7.get("paused_mid")
+                if pz is None:
+                    raise TraceShape("the state of operator_paused was not observed")
+                it["paused"] = bool(pz)
                 steps.append({"event": it})
                 impl.append({"given": ticks(c["consistency_time"]),
                              "slept": None if s is None else [ticks(s["t1"]), bool(s["timed_out"])],
                              "entered": ticks(c7["pcc_t"]), "held": bool(required and not c7["matched"]),
                              "first_handler": ticks(mine[0]["t"]) if mine else None,
                              "t_index": ticks(min(t_ix)) if t_ix else None, "t_event": ticks(min(t_ev)) if t_ev else None,
-                             "t_spawn": tmid,
+                             "t_spawn": ticks(c7["t_spawn0"]) if c7.get("t_spawn0") is not None else None,
                              "eos_wake": bool(s is not None and not s["timed_out"] and nxt_items and nxt_items[0][1] == "EOS")})
                 where.append({"uid": uid, "cycle": c["i"]})
             if truncated:
@@ -581,14 +787,28 @@ def digest(sc: dict, tr: dict, tie: bool = True) -> dict:
     for m in tr["marks"]:
         if m.get("what") == "op" and m["op"][0] == "break":
             rec.count("stream_breaks", m["op"][1])
+    for pz in c7.get("pauses", []):
+        rec.count("pause_plans", f"{pz['on']}/{pz.get('anchor', 'start')}" + (" flapping" if len(pz.get("plan", [])) > 2 else ""))
+    for c in tr["cycles"]:
+        q = c.get("c07")
+        if q and q.get("t_out") is not None and (q.get("paused_in") or q.get("paused_mid") or (q.get("sleep") or {}).get("paused_end")):
+            sl = q.get("sleep") or {}
+            rec.count("paused", "iteration processed while paused: " + (
+                "nothing expected" if q["consistency_time"] is None else
+                "expecting; paused " + ("before the sleep" if q.get("paused_mid") and sl else "during the sleep" if sl.get("paused_end") else
+                                        "and un-paused before the sleep ended" if sl else "no sleep")))
     rec.count("listed_events", "re-listed while the worker was expecting a version",
               sum(1 for c in tr["cycles"] if c["event_type"] is None and c.get("consistency_time") is not None))
     rec.count("listed_events", "listed", sum(1 for c in tr["cycles"] if c["event_type"] is None))
     nw = sum(int(l.get("nowait", 0)) for l in tr["lives"])
     if nw:
         rec.count("worker_wait", "timed-out wait found the backlog non-empty: event taken with get_nowait", nw)
-    runs = abstract(sc, tr) if tie else []
-    return {"hist": rec.hist, "fails": rec.fails, "runs": runs}
+    bypassed = None
+    try:
+        runs = abstract(sc, tr) if tie else []
+    except Bypassed as e:
+        runs, bypassed = [], str(e)
+    return {"hist": rec.hist, "fails": rec.fails, "runs": runs, "bypassed": bypassed}
 
 
 def evaluate(ctx: Ctx, scenarios: list[dict], results: list[dict], tie: bool = True) -> None:
@@ -606,6 +826,9 @@ def evaluate(ctx: Ctx, scenarios: list[dict], results: list[dict], tie: bool = T
         for f in dg["fails"]:
             ctx.oracle_fail(f["what"], f["replay"], f["signature"])
         if tie:
+            if dg.get("bypassed"):
+                ctx.tie_fail("C07 the processor's consistency block was not observed (the code under test no longer passes through "
+                             "the module attributes the harness instruments): " + dg["bypassed"], {"scenario": sc})
             for run in dg["runs"]:
                 batch.append((sc, run))
     if not tie or not batch:
@@ -628,6 +851,7 @@ def evaluate(ctx: Ctx, scenarios: list[dict], results: list[dict], tie: bool = T
             continue
         msteps = out[1]["steps"]
         prev_deadline = None
+        has_spawn = any(h["kind"] in ("daemon", "timer") for h in sc["handlers"])
         for st, impl, m, wh in zip(run["req"][1]["steps"], run["impl"], msteps, run["where"]):
             rep = {"scenario": sc, **wh, "step": st}
             if "retire" in st:
@@ -672,7 +896,8 @@ def evaluate(ctx: Ctx, scenarios: list[dict], results: list[dict], tie: bool = T
             # when the low-level stages really started (observable only where such handlers are registered)
             rlow = {"indexing": impl["t_index"] if impl["t_index"] is not None else mlow.get("indexing"),
                     "watching": impl["t_event"] if impl["t_event"] is not None else mlow.get("watching"),
-                    "spawning": impl["t_spawn"]}
+                    # the spawning stage (daemons/timers: spawn, match, stop) is there in every iteration iff such handlers exist
+                    "spawning": impl["t_spawn"] if has_spawn else mlow.get("spawning")}
             if impl["t_index"] is not None or impl["t_event"] is not None:
                 ctx.count("low_level_stages", "timed against the model" + (" (deadline set)" if shape["given"] else ""))
             model = {"given": o["given"], "slept": o["slept"], "entered": o["entered"], "held": o["held"], "ok": m["ok"],
